@@ -107,6 +107,14 @@ func (p *readPolicy) Decide(s *sched.Sim, op sched.Op) sched.Decision {
 	if len(kinds) == 0 {
 		return sched.Decision{}
 	}
+	// an operation on a workspace-supplied well-known type is a preferred target: a failing read
+	// there must fail the build, never be answered from the built-in copy
+	for p := range m.ws.SuppliedWKT {
+		if strings.HasSuffix(op.Path, ":"+p) && s.Tape.Draw("wktfault?", 2) == 1 {
+			m.faultBudget--
+			return sched.Decision{Fault: kinds[0]}
+		}
+	}
 	v := s.Tape.Draw("fault?", m.faultRate)
 	if v == 0 || v > len(kinds) {
 		return sched.Decision{}
@@ -518,6 +526,35 @@ func Run(tp *tape.Tape, env *engine.Env) *engine.Outcome {
 			for _, k := range simfs.SortedKeys(res.outputs) {
 				if _, ok := base.outputs[k]; !ok {
 					m.violate("output-identical", site+"|"+k, "output %q exists only under the perturbed schedule", k)
+				}
+			}
+		}
+	}
+	// free-running rounds: no scheduling points at all - the goroutines of the code under test run
+	// truly in parallel (GOMAXPROCS is 1, 4 or 16 depending on the worker) under several worker
+	// counts; nothing is drawn and nothing is hashed, but every output is compared with the baseline
+	if mode == "schedule" {
+		free := 2
+		if env.Tier == "thorough" {
+			free = 4
+		}
+		for r := 0; r < free; r++ {
+			par := []int{16, 2, 4, 8}[(r+len(m.ws.Files))%4]
+			thread.SetParallelism(par)
+			m.permuteWalk, m.faults, m.cancelAt = false, false, 0
+			s.Unhashed = true
+			res := m.pipeline(context.Background(), m.prop == "C02")
+			s.Unhashed = false
+			m.counters["free_executions"]++
+			site := "free-running"
+			if res.err != nil {
+				m.violate("schedule-independence", site, "build failed when running freely with %d workers: %v", par, res.err)
+				continue
+			}
+			m.checkImage(res.image, ref, site)
+			for _, k := range simfs.SortedKeys(base.outputs) {
+				if res.outputs[k] != base.outputs[k] {
+					m.violate("output-identical", site+"|"+k, "output %q differs from the baseline when running freely with %d workers: %s", k, par, firstDiff(base.outputs[k], res.outputs[k]))
 				}
 			}
 		}
